@@ -62,7 +62,11 @@ def dt_program(rng):
         ders.append(u)
     utilities = []
     for u in ders:
-        utilities.append((u, rng.random() < 0.25, rng.choice([-7, -3, -1, 2, 5, 10, 4.5])))
+        neg = rng.random() < 0.25
+        utilities.append((u, neg, rng.choice([-7, -3, -1, 2, 5, 10, 4.5])))
+        if rng.random() < 0.2:
+            # a utility on the atom AND on its negation
+            utilities.append((u, not neg, rng.choice([-2, 1, 3, 6])))
     for d, _ in decisions:
         if rng.random() < 0.6:
             utilities.append((d, False, rng.choice([-4, -2, -1, 1, -0.5])))
